@@ -59,3 +59,18 @@ Example C01_nonvacuous :
   vals_ok exP exV = true /\
   exists w, pk exE exP exV (cp true (SData "D")) = Ok w /\ uk exE exP w (cu true (SData "D")) = Ok exV.
 Proof. repeat split; try (vm_compute; reflexivity). eexists. split; vm_compute; reflexivity. Qed.
+
+(* strongest form: the generated encoder always succeeds on such a value and the generated
+   decoder gives the value back (existence + round trip, no hypothesis left about [w]) *)
+Theorem C01_roundtrip_total : forall (E: senv) (P: prims),
+  forallb cls_ok E = true ->
+  forall (v: pv) (t: sty),
+    conf E v t = true -> lossless t = true -> vals_ok P v = true ->
+    exists w, pk E P v (cp true t) = Ok w /\ uk E P w (cu true t) = Ok v.
+Proof.
+  intros E P HE v t HC HL HV.
+  destruct (ref_enc_total E P v t HC HV) as [w Hw].
+  exists w. rewrite (encode_is_ref E P v t HC). split; [exact Hw|].
+  rewrite (decode_is_ref E P w t). exact (ref_roundtrip E P HE v t w HC HL HV Hw).
+Qed.
+Print Assumptions C01_roundtrip_total.
